@@ -96,6 +96,8 @@ def qr_workload(ctx, maps, g, extra_maps=None):
                     if which == 2:
                         fs += [(2, a, 0, 0) for a in rng.sample(range(15), rng.randint(1, 3))]
                     sets.append(mkset(mp, ec, fs))
+                    if k > 0:       # the same subset in BOTH copies: no intact copy can rescue a miscounted distance
+                        sets.append(mkset(mp, ec, [(1, a, 0, 0) for a in sub] + [(2, a, 0, 0) for a in sub]))
             sets.append(mkset(mp, ec, [(1, a, 0, 0) for a in range(4)] + [(2, a, 0, 0) for a in range(4, 8)]))  # beyond: 4 + 4
             ev.append(dict(op="dmg", text=text, ec=ec, vh=v, mh=(ec * 3 + ctx.seed) % 8, cs=cs, sets=sets, tag="format"))
     # version information: seeded subsets of <= 3 of 18 bits per copy (exhaustive over single and double flips of copy 1)
@@ -110,6 +112,10 @@ def qr_workload(ctx, maps, g, extra_maps=None):
         for _ in range(40 if ctx.quick else 300):
             fs = [(3, a, 0, 0) for a in rng.sample(range(18), 3)] + [(4, a, 0, 0) for a in rng.sample(range(18), 3)]
             sets.append(mkset(mp, 1, fs))
+        if v == 7 or not ctx.quick:     # every subset of <= 3 of the 18 bits, identically in both copies
+            for k in (1, 2, 3):
+                for sub in itertools.combinations(range(18), k):
+                    sets.append(mkset(mp, 1, [(3, a, 0, 0) for a in sub] + [(4, a, 0, 0) for a in sub]))
         ev.append(dict(op="dmg", text=text, ec=1, vh=v, mh=v % 8, cs=cs, sets=sets, tag="version"))
     return ev
 
